@@ -106,6 +106,7 @@ class Sim:
         client, current, sessions = None, None, []
         pos = 0
         self.adopted_then_used = False
+        self.draws = []           # one group per K / W packet, for the model
         adopted_pending = False
 
         def take(n):
@@ -190,10 +191,12 @@ class Sim:
                 sch = s["scheme"]
                 payload = wire[:payload_len]
                 if k >= sch.stop:
+                    self.draws.append([])
                     if writes != [payload]:
                         return "%s: packet %d >= stop %d of scheme %s must be plain, writes %s" % (op, k, sch.stop, sch.md5[:8], lens)
                 else:
-                    f4, _ = accept(sch.entries(k), payload, writes)
+                    f4, dr = accept(sch.entries(k), payload, writes)
+                    self.draws.append(dr)
                     if f4:
                         return "%s: packet %d of session %d is not shaped by line %d = %r of the scheme in force (md5 %s..): %s; writes %s" % (
                             op, k, i, k, sch.map.get(str(k)), sch.md5[:8], f4, lens)
@@ -251,11 +254,16 @@ def oracle(c, ir):
     return sim.walk(ir.split())
 
 
+def after_impl(cases, impl):
+    for c in cases:
+        if c.cid in impl:
+            try:
+                sim = Sim(c.args)
+                sim.walk(impl[c.cid].split())
+                c.draws = sim.draws
+            except Exception:
+                c.draws = None
+
+
 def same(c, ir, mr):
-    if "C:default" in c.args:
-        # sessions running the built-in scheme draw random sizes: compare everything but those lengths
-        def norm(s):
-            s = re.sub(r"\b([KW]) ok \S+", r"\1 ok L", s)
-            return re.sub(r"~0:\d+", "~0:n", s)
-        return norm(ir) == norm(mr)
     return ir == mr
